@@ -109,11 +109,11 @@ Lemma key_ntrans {A} (key : A -> Z) : ntrans A (fun a b => key a <? key b).
 Proof. intros a b c. rewrite !Z.ltb_ge. lia. Qed.
 
 Lemma obj_lt_irrefl t : irrefl _ (obj_lt t).
-Proof. destruct t; first [apply (key_irrefl dec)|apply (key_irrefl sval)|apply lex_lt_irrefl]. Qed.
+Proof. destruct t; first [apply (key_irrefl dec)|apply (key_irrefl sval)|apply (key_irrefl fkey)|apply lex_lt_irrefl]. Qed.
 Lemma obj_lt_trans t : trans _ (obj_lt t).
-Proof. destruct t; first [apply (key_trans dec)|apply (key_trans sval)|apply lex_lt_trans]. Qed.
+Proof. destruct t; first [apply (key_trans dec)|apply (key_trans sval)|apply (key_trans fkey)|apply lex_lt_trans]. Qed.
 Lemma obj_lt_ntrans t : ntrans _ (obj_lt t).
-Proof. destruct t; first [apply (key_ntrans dec)|apply (key_ntrans sval)|apply lex_lt_ntrans]. Qed.
+Proof. destruct t; first [apply (key_ntrans dec)|apply (key_ntrans sval)|apply (key_ntrans fkey)|apply lex_lt_ntrans]. Qed.
 
 Lemma span_lt_lexb t : forall a b, span_lt t a b = lexb _ (obj_lt t) a b.
 Proof. induction a as [|x a IH]; intros [|y b]; cbn [span_lt lexb]; rewrite ?IH; reflexivity. Qed.
@@ -140,20 +140,39 @@ Proof.
   - destruct (list_eqb b a) eqn:E2; [|reflexivity].
     apply list_eqb_eq in E2. subst. rewrite list_eqb_refl in E. discriminate.
 Qed.
-Lemma span_eq_eq : forall a b, span_eq a b = true <-> a = b.
+(* the value type's ==: identity of the object representation except for floating point *)
+Lemma obj_eq_refl t a : obj_eq t a a = true.
+Proof. destruct t; cbn [obj_eq]; first [apply list_eqb_refl|apply Z.eqb_refl]. Qed.
+Lemma obj_eq_sym t a b : obj_eq t a b = obj_eq t b a.
+Proof. destruct t; cbn [obj_eq]; first [apply list_eqb_sym|apply Z.eqb_sym]. Qed.
+Lemma obj_eq_eq t a b : t <> TFlt -> obj_eq t a b = true <-> a = b.
+Proof. intros Ht. destruct t; cbn [obj_eq]; try apply list_eqb_eq. congruence. Qed.
+(* what the model's float comparison is: IEEE == and < wherever no NaN is involved *)
+Lemma ieee_agrees a b : fnan a = false -> fnan b = false ->
+  ieee_eq a b = obj_eq TFlt a b /\ ieee_lt a b = obj_lt TFlt a b.
+Proof. intros Ha Hb. unfold ieee_eq, ieee_lt. rewrite Ha, Hb. cbn [negb andb obj_eq obj_lt]. auto. Qed.
+(* a < b implies a != b, and a == b implies neither a < b nor b < a, for floats as well *)
+Lemma obj_lt_not_eq t a b : obj_lt t a b = true -> obj_eq t a b = false.
 Proof.
-  induction a as [|x a IH]; intros [|y b]; cbn [span_eq]; try (split; congruence).
-  rewrite andb_true_iff, list_eqb_eq, IH.
+  destruct t; cbn [obj_lt obj_eq]; intros H.
+  all: try (destruct (list_eqb a b) eqn:E; [apply list_eqb_eq in E; subst b|reflexivity]).
+  all: try (rewrite ?Z.ltb_irrefl in H; discriminate).
+  all: try (rewrite lex_lt_irrefl in H; discriminate).
+  apply Z.eqb_neq. apply Z.ltb_lt in H. lia.
+Qed.
+
+Lemma span_eq_eq t : t <> TFlt -> forall a b, span_eq t a b = true <-> a = b.
+Proof.
+  intros Ht. induction a as [|x a IH]; intros [|y b]; cbn [span_eq]; try (split; congruence).
+  rewrite andb_true_iff, (obj_eq_eq t x y Ht), IH.
   split; [intros [-> ->]; reflexivity|intros H; inversion H; auto].
 Qed.
-Lemma span_eq_refl a : span_eq a a = true.
-Proof. apply span_eq_eq. reflexivity. Qed.
-Lemma span_eq_sym a b : span_eq a b = span_eq b a.
+Lemma span_eq_refl t a : span_eq t a a = true.
+Proof. induction a as [|x a IH]; cbn [span_eq]; [reflexivity|]. rewrite obj_eq_refl, IH. reflexivity. Qed.
+Lemma span_eq_sym t : forall a b, span_eq t a b = span_eq t b a.
 Proof.
-  destruct (span_eq a b) eqn:E.
-  - apply span_eq_eq in E. subst. symmetry. apply span_eq_refl.
-  - destruct (span_eq b a) eqn:E2; [|reflexivity].
-    apply span_eq_eq in E2. subst. rewrite span_eq_refl in E. discriminate.
+  induction a as [|x a IH]; intros [|y b]; cbn [span_eq]; try reflexivity.
+  rewrite (obj_eq_sym t x y), IH. reflexivity.
 Qed.
 
 (* ---------- element level: ==, for every list and arbitrary memories ---------- *)
